@@ -31,6 +31,7 @@ package nbp
 
 import (
 	"fmt"
+	"math"
 	"net/url"
 
 	"github.com/coredhcp/coredhcp/handler"
@@ -66,8 +67,12 @@ func setup6(args ...string) (handler.Handler6, error) {
 	if err != nil {
 		return nil, err
 	}
-	opt59 = dhcpv6.OptBootFileURL(u.String())
 	params := u.Query().Get("params")
+	// DHCPv6 options have a 16-bit length (and each parameter another one)
+	if len(u.String()) > math.MaxUint16 || len(params) > math.MaxUint16-2 {
+		return nil, fmt.Errorf("NBP URL is too long to fit in a DHCPv6 option")
+	}
+	opt59 = dhcpv6.OptBootFileURL(u.String())
 	if params != "" {
 		// RFC5970 §3.2: each parameter is preceded by its 16-bit length. The raw
 		// string is not a valid option: replies carrying it cannot be parsed
